@@ -84,9 +84,18 @@ func corrupt(kind string, e iface.IPFSLogEntry, other iface.IPFSLogEntry, rng *r
 	case "otherkey":
 		c.Key = append([]byte(nil), other.GetKey()...)
 	case "payload":
-		if len(c.Payload) == 0 {
+		nonASCII := false
+		for _, b := range c.Payload {
+			nonASCII = nonASCII || b >= 0x80
+		}
+		switch {
+		case len(c.Payload) == 0:
 			c.Payload = []byte{'x'}
-		} else {
+		case nonASCII:
+			// (a bit flip inside an invalid UTF-8 sequence does not change the signed bytes - the recorded C07 finding;
+			// this tamper must be one the signature covers)
+			c.Payload = append(c.Payload, 'x')
+		default:
 			c.Payload[rng.Intn(len(c.Payload))] ^= 0x01
 		}
 	case "clock":
@@ -206,6 +215,19 @@ func c06Case(run *evid.Run, i int, j *Journal) {
 			}
 		}
 	}
+	// payloads are opaque bytes: binary, invalid UTF-8, NUL - written by Append, verified in memory AND read back below
+	if i%2 == 1 {
+		l := x.Logs[rng.Intn(h.Replicas)]
+		for _, class := range []string{"binary", "invalid-utf8", "nul"} {
+			e, err := l.Append(x.W.Ctx, classPayload(class, fmt.Sprintf("%d.%d/%s", h.Seed, h.Idx, class), rng), nil)
+			if err != nil {
+				run.Violate("C06/append-error", det("codec", h.Codec, "payload", class), wit("append of a "+class+" payload"), "append of a %s payload failed: %v", class, err)
+			} else {
+				appended = append(appended, e)
+				run.Count("appended_non_text_payload", 1)
+			}
+		}
+	}
 	if big {
 		l := x.Logs[0]
 		for k := 0; k < 60+rng.Intn(240); k++ {
@@ -241,7 +263,7 @@ func c06Case(run *evid.Run, i int, j *Journal) {
 	// rebuilt by a loader hands out entries that verify, and a fresh permissive replica can merge it
 	if h.Codec != "pb" { // the legacy codec cannot read back what it writes (DESIGN 8.5)
 		for r, l := range x.Logs {
-			if l.Len() == 0 || (i+r)%3 != 0 {
+			if l.Len() == 0 || ((i+r)%3 != 0 && i%2 == 0) {
 				continue
 			}
 			loader := hx.Loaders[rng.Intn(len(hx.Loaders))]
@@ -431,10 +453,19 @@ func c06Case(run *evid.Run, i int, j *Journal) {
 		expectErr := nInvalid > 0 || nDenied > 0 || nthHit
 		desc := fmt.Sprintf("round %d: %s <- corrupted(r%d) corrupt=%v policy=%s candidates=%d invalid=%d denied=%d nthHit=%v", round, dstName, s, posClass, pol.name, len(cands), nInvalid, nDenied, nthHit)
 		j.Log(map[string]any{"case": i, "codec": h.Codec, "phase": "corrupt-merge", "desc": desc})
+		// a third of the merges carry a size bound: validation covers every candidate all the same
+		size := -1
+		if rng.Intn(3) == 0 && len(cands) > 0 {
+			size = 1 + rng.Intn(len(cands)+2)
+		}
+		if size >= 0 {
+			desc += fmt.Sprintf(" size=%d", size)
+			run.Count("corrupted_merges_with_a_size_bound", 1)
+		}
 		var jerr error
 		if pol.inspect {
 			// a controller that looks at the log through its context: the merge must not block on the log's own lock
-			ok, dead, dump := guardCall(func() { _, jerr = dst.Join(src, -1) }, 60*time.Second)
+			ok, dead, dump := guardCall(func() { _, jerr = dst.Join(src, size) }, 60*time.Second)
 			if !ok {
 				if dead {
 					run.Violate("C06/merge-never-returns", det("codec", h.Codec, "policy", pol.name), map[string]any{"case": i, "desc": desc, "blocked_goroutines": dump}, "a merge into a log whose access controller inspects the log entries never returns (%s)", desc)
@@ -444,7 +475,7 @@ func c06Case(run *evid.Run, i int, j *Journal) {
 				return
 			}
 		} else {
-			_, jerr = dst.Join(src, -1)
+			_, jerr = dst.Join(src, size)
 		}
 		after := hx.Observe(dst)
 		run.Count("merges_checked", 1)
